@@ -3,8 +3,8 @@
 import sys, os, json, shutil, re
 ID, k, detected, how = sys.argv[1], sys.argv[2], sys.argv[3], sys.argv[4]
 R = os.environ.get("ROUND", "1")
-src = f"/tmp/seed/out2/{ID}/{k}" if R == "2" else f"/tmp/seed/out/{ID}/{k}"
-dst = f"/verif/seeded/{ID}-r2-{k}" if R == "2" else f"/verif/seeded/{ID}-{k}"
+src = {"1": f"/tmp/seed/out/{ID}/{k}", "2": f"/tmp/seed/out2/{ID}/{k}", "3": f"/tmp/seed/out3/{ID}/{k}"}[R]
+dst = {"1": f"/verif/seeded/{ID}-{k}", "2": f"/verif/seeded/{ID}-r2-{k}", "3": f"/verif/seeded/{ID}-r3-{k}"}[R]
 os.makedirs(dst, exist_ok=True)
 shutil.copy(src + "/patch.diff", dst + "/patch.diff")
 for name in ("demo", "demo.sh"):
@@ -20,17 +20,21 @@ try:
 except Exception as e:
     meta = {"note": "meta.json from the seeding agent unreadable: " + str(e)}
 conf = ""
-for log in sorted(os.listdir("/tmp/seed")):
-    if log.startswith("confirm") and log.endswith(".log"):
-        for line in open("/tmp/seed/" + log):
+logs = ["/tmp/seed/" + l for l in sorted(os.listdir("/tmp/seed")) if l.startswith("confirm") and l.endswith(".log")]
+if os.path.isdir("/tmp/seed/confirm3"):
+    logs += ["/tmp/seed/confirm3/" + l for l in sorted(os.listdir("/tmp/seed/confirm3"))]
+for log in logs:
+    if True:
+        for line in open(log):
             if line.startswith(f"RESULT {ID}/{k} ") and R == "1" or line.startswith(f"RESULT r{R} {ID}/{k} "):
                 conf = line.strip()
 out = {
     "property": ID,
     "summary": meta.get("summary", ""),
-    "needs_to_manifest": meta.get("needs", ""),
+    "needs_to_manifest": meta.get("needs_to_manifest", meta.get("needs", "")),
     "failing_input": meta.get("failing_input", ""),
-    "origin": "independent sub-agent given only the property text and a scratch git worktree of /repo (nothing from /verif)" + ("; round 2: additionally required to be correct on all small/ordinary inputs and wrong only on large or rare ones" if R == "2" else ""),
+    "origin": "independent sub-agent given only the property text and a scratch git worktree of /repo (nothing from /verif)" + ("; round 2: additionally required to be correct on all small/ordinary inputs and wrong only on large or rare ones" if R == "2" else "")
+              + ("; round 3: required to need something specific to manifest (a multi-step history, a large or rare input, two cooperating edits, an unusual macro invocation, a panic at a particular point)" if R == "3" else ""),
     "confirmed_by_me": {
         "command": f"ROUND={R} notes/confirm_seed.sh {ID} {k}  (scratch worktree: apply patch; cargo test --workspace --no-fail-fast --offline; run demo; undo; run demo)",
         "result": conf,
